@@ -1,5 +1,5 @@
 (* C04 - proofs. *)
-From Cell2V Require Import Common.Tac Common.ListX C04.Model C04.Spec.
+From Cell2V Require Import Common.Tac Common.ListX C04.Model C04.Spec C04.Corr.
 
 (* ------------------------------------------------------------------ list positions *)
 Lemma nth_error_upd_same {A} (l : list A) n x a :
@@ -455,7 +455,8 @@ Lemma cases_nth_chan s i k :
 Proof. intros W H. exact (map_eq_nth Some (chan_of s) _ _ i k (wf_index _ W) H). Qed.
 
 Inductive handle_result (s : st) (k : Z) : st * ev -> Prop :=
-| HR_idle : handle_result s k (s, EIdle)
+| HR_idle : existsb (chan_ready (try_make s)) (cases (try_make s)) = false ->
+            handle_result s k (s, EIdle)
 | HR_bad : handle_result s k (s, EBadChoice)
 | HR_ran : forall s2 c v ok,
     chan_of (try_make s) k = Some c -> In k (runnings (try_make s)) ->
@@ -468,7 +469,8 @@ Proof.
   destruct (try_make_facts s W) as (_ & _ & _ & Cs & _).
   destruct (open_head s W) as [r0 OH]. rewrite OH in Cs. simpl in Cs.
   destruct (cases (try_make s)) as [|c0 cr] eqn:EC; [discriminate|]. rewrite <- EC.
-  destruct (existsb (chan_ready (try_make s)) (cases (try_make s))); simpl; [|constructor].
+  destruct (existsb (chan_ready (try_make s)) (cases (try_make s))) eqn:EX; simpl;
+    [|apply HR_idle; exact EX].
   destruct (index_of k (runnings (try_make s))) as [i|] eqn:I; [|constructor].
   apply index_of_some in I.
   destruct (cases_nth_chan _ i k W1 I) as (c & N & CO). rewrite N.
@@ -1130,10 +1132,10 @@ Lemma one_at_a_time l :
   ~ In PPanic (pcs x).
 Proof.
   intro x. destruct (irun_inv1 l _ inv1_init) as [W (p & EP & P)]. fold x in W, EP, P.
-  repeat split.
+  split; [|split].
   - unfold running. rewrite EP. simpl. destruct (is_running p); simpl; lia.
-  - rewrite EP in H. destruct j as [|[|j]]; simpl in H; [reflexivity | discriminate | discriminate].
-  - rewrite EP in H. destruct j as [|[|j]]; simpl in H; try discriminate. inv H. exact (proj1 P).
+  - intros j k c v ok Hj. rewrite EP in Hj.
+    destruct j as [|[|j]]; simpl in Hj; try discriminate. inv Hj. split; [reflexivity | exact (proj1 P)].
   - rewrite EP. intros [E|[]]. subst p. exact P.
 Qed.
 
@@ -1220,3 +1222,387 @@ Lemma run_is_trace ops :
   events ops = map snd (trace ops) /\ final ops = final_from init ops /\
   length (run ops) = length ops.
 Proof. repeat split; [apply events_is | apply final_is | apply run_from_snaps]. Qed.
+
+(* ------------------------------------------------------------------ the monitor accepts the model *)
+Definition qz (cs : list chan) (c : Z) : list Z :=
+  match znth cs c with Some ch => cq ch | None => [] end.
+
+Record relSC (ss : list seld) (cs : list chan) (m : mst) : Prop := mkRel {
+  r_sels : m_sels m = map schan ss;
+  r_dead : forall k, zmem k (m_dead m) = true <-> exists d, znth ss k = Some d /\ sopen d = false;
+  r_len : length (m_q m) = length cs;
+  r_q : forall c, 0 < c -> qget m c = qz cs c;
+  r_closed : forall c, zmem c (m_closed m) = true <->
+                       (0 < c /\ exists ch, znth cs c = Some ch /\ cclosed ch = true);
+  r_pos : forall k d, znth ss k = Some d -> k <> 0 -> 0 < schan d;
+  r_dirt : forall v, In v (qz cs 0) -> v = 1
+}.
+
+Definition rel (s : st) (m : mst) : Prop := wf s /\ relSC (sels s) (chans s) m.
+
+Lemma znth_map {A B} (f : A -> B) l i : znth (map f l) i = option_map f (znth l i).
+Proof.
+  unfold znth. destruct (i <? 0); [reflexivity|]. apply nth_error_map.
+Qed.
+
+Lemma zmem_cons x y l : zmem x (y :: l) = Z.eqb x y || zmem x l.
+Proof. reflexivity. Qed.
+
+Lemma qget_qset_same m c q q0 : znth (m_q m) c = Some q0 -> qget (qset m c q) c = q.
+Proof. intro H. unfold qget, qset. simpl. rewrite (znth_zupd_same _ _ _ _ H). reflexivity. Qed.
+
+Lemma qget_qset_other m c c' q : c <> c' -> qget (qset m c q) c' = qget m c'.
+Proof. intro N. unfold qget, qset. simpl. rewrite znth_zupd_other by exact N. reflexivity. Qed.
+
+Lemma qz_zupd_same cs c ch ch0 : znth cs c = Some ch0 -> qz (zupd cs c ch) c = cq ch.
+Proof. intro H. unfold qz. rewrite (znth_zupd_same _ _ _ _ H). reflexivity. Qed.
+
+Lemma qz_zupd_other cs c ch c' : c <> c' -> qz (zupd cs c ch) c' = qz cs c'.
+Proof. intro N. unfold qz. rewrite znth_zupd_other by exact N. reflexivity. Qed.
+
+Lemma length_zupd {A} (l : list A) i x : length (zupd l i x) = length l.
+Proof. unfold zupd. destruct (i <? 0); [reflexivity | apply length_upd]. Qed.
+
+Lemma mq_some ss cs m c : relSC ss cs m -> 0 <= c < zlen cs -> exists q, znth (m_q m) c = Some q.
+Proof.
+  intros R H. apply znth_some. unfold zlen in *. rewrite (r_len _ _ _ R). exact H.
+Qed.
+
+(* (A) a new channel *)
+Lemma rel_new_chan ss cs m cap :
+  relSC ss cs m ->
+  relSC ss (cs ++ [mkChan [] false cap]) (mkM (m_sels m) (m_dead m) (m_q m ++ [[]]) (m_closed m)).
+Proof.
+  intro R. constructor; simpl.
+  - exact (r_sels _ _ _ R).
+  - exact (r_dead _ _ _ R).
+  - rewrite !app_length, (r_len _ _ _ R). reflexivity.
+  - intros c P. unfold qget, qz. simpl.
+    assert (zlen (m_q m) = zlen cs) as L by (unfold zlen; rewrite (r_len _ _ _ R); reflexivity).
+    destruct (Z.lt_trichotomy c (zlen cs)) as [Lt|[->|Gt]].
+    + rewrite !znth_app_lt by lia. exact (r_q _ _ _ R c P).
+    + rewrite znth_app_new. rewrite <- L, znth_app_new. reflexivity.
+    + rewrite !znth_none; [reflexivity | rewrite zlen_app; lia | rewrite zlen_app; lia].
+  - intro c. rewrite (r_closed _ _ _ R c). split; intros [P (ch & H & C)]; split; auto.
+    + exists ch. split; [apply znth_app_l; exact H | exact C].
+    + apply znth_app_inv in H. destruct H as [H|[_ ->]]; [eauto | discriminate].
+  - exact (r_pos _ _ _ R).
+  - intros v I. apply (r_dirt _ _ _ R). unfold qz in *.
+    destruct (znth cs 0) as [ch|] eqn:E.
+    + rewrite (znth_app_l _ _ _ _ E) in I. exact I.
+    + assert (zlen cs <= 0) as Z0.
+      { destruct (Z_lt_le_dec 0 (zlen cs)) as [L|L]; [|exact L].
+        destruct (znth_some cs 0) as [a Ha]; [lia | congruence]. }
+      pose proof (znth_app_inv cs (mkChan [] false cap) 0) as X.
+      destruct (znth (cs ++ [mkChan [] false cap]) 0) as [ch|] eqn:E2; [|exact I].
+      destruct (X ch eq_refl) as [H|[_ ->]]; [congruence | exact I].
+Qed.
+
+(* (B) a new selector *)
+Lemma rel_add_sel ss cs m c :
+  relSC ss cs m -> 0 < c ->
+  relSC (ss ++ [mkSel c true]) cs (mkM (m_sels m ++ [c]) (m_dead m) (m_q m) (m_closed m)).
+Proof.
+  intros R P. constructor; simpl.
+  - rewrite map_app, (r_sels _ _ _ R). reflexivity.
+  - intro k. rewrite (r_dead _ _ _ R k). split; intros (d & H & O).
+    + exists d. split; [apply znth_app_l; exact H | exact O].
+    + apply znth_app_inv in H. destruct H as [H|[_ ->]]; [eauto | discriminate].
+  - exact (r_len _ _ _ R).
+  - exact (r_q _ _ _ R).
+  - exact (r_closed _ _ _ R).
+  - intros k d H N. apply znth_app_inv in H. destruct H as [H|[_ ->]].
+    + exact (r_pos _ _ _ R k d H N).
+    + exact P.
+  - exact (r_dirt _ _ _ R).
+Qed.
+
+(* (C) the queue of a user channel changes *)
+Lemma rel_set_q ss cs m c ch ch' :
+  relSC ss cs m -> znth cs c = Some ch -> 0 < c -> cclosed ch' = cclosed ch ->
+  relSC ss (zupd cs c ch') (qset m c (cq ch')).
+Proof.
+  intros R H P C. pose proof (znth_range _ _ _ H) as Rg.
+  destruct (mq_some _ _ _ c R ltac:(lia)) as [q0 Hq].
+  constructor; simpl.
+  - exact (r_sels _ _ _ R).
+  - exact (r_dead _ _ _ R).
+  - rewrite !length_zupd. exact (r_len _ _ _ R).
+  - intros c' P'. destruct (Z.eq_dec c c') as [<-|N].
+    + rewrite (qget_qset_same _ _ _ _ Hq), (qz_zupd_same _ _ _ _ H). reflexivity.
+    + rewrite qget_qset_other, qz_zupd_other by exact N. exact (r_q _ _ _ R c' P').
+  - intro c'. rewrite (r_closed _ _ _ R c'). destruct (Z.eq_dec c c') as [<-|N].
+    + rewrite (znth_zupd_same _ _ _ _ H), H.
+      split; intros [P' (x & E & Cx)]; (split; [exact P'|]); inv E; eexists; (split; [reflexivity | congruence]).
+    + rewrite znth_zupd_other by exact N. tauto.
+  - exact (r_pos _ _ _ R).
+  - rewrite qz_zupd_other by lia. exact (r_dirt _ _ _ R).
+Qed.
+
+(* (D) the wake-up channel changes *)
+Lemma rel_set_dirt ss cs m ch ch' :
+  relSC ss cs m -> znth cs 0 = Some ch -> (forall v, In v (cq ch') -> v = 1) ->
+  relSC ss (zupd cs 0 ch') m.
+Proof.
+  intros R H D. constructor; simpl.
+  - exact (r_sels _ _ _ R).
+  - exact (r_dead _ _ _ R).
+  - rewrite length_zupd. exact (r_len _ _ _ R).
+  - intros c P. rewrite qz_zupd_other by lia. exact (r_q _ _ _ R c P).
+  - intro c. rewrite (r_closed _ _ _ R c). split; intros [P X]; split; auto.
+    + rewrite znth_zupd_other by lia. exact X.
+    + rewrite znth_zupd_other in X by lia. exact X.
+  - exact (r_pos _ _ _ R).
+  - rewrite (qz_zupd_same _ _ _ _ H). exact D.
+Qed.
+
+(* (E) close *)
+Lemma rel_close ss cs m c ch :
+  relSC ss cs m -> znth cs c = Some ch -> 0 < c ->
+  relSC ss (zupd cs c (mkChan (cq ch) true (ccap ch)))
+        (mkM (m_sels m) (m_dead m) (m_q m) (c :: m_closed m)).
+Proof.
+  intros R H P. constructor; cbn [m_sels m_dead m_q m_closed].
+  - exact (r_sels _ _ _ R).
+  - exact (r_dead _ _ _ R).
+  - rewrite length_zupd. exact (r_len _ _ _ R).
+  - intros c' P'. unfold qget. simpl. fold (qget m c'). rewrite (r_q _ _ _ R c' P').
+    destruct (Z.eq_dec c c') as [<-|N].
+    + rewrite (qz_zupd_same _ _ _ _ H). unfold qz. rewrite H. reflexivity.
+    + rewrite qz_zupd_other by exact N. reflexivity.
+  - intro c'. rewrite zmem_cons, orb_true_iff, (r_closed _ _ _ R c'). destruct (Z.eq_dec c c') as [<-|N].
+    + rewrite (znth_zupd_same _ _ _ _ H). split.
+      * intros _. split; [exact P|]. eexists. split; reflexivity.
+      * intros _. left. apply Z.eqb_refl.
+    + rewrite znth_zupd_other by exact N. split.
+      * intros [E|X]; [apply Z.eqb_eq in E; congruence | exact X].
+      * intro X. right. exact X.
+  - exact (r_pos _ _ _ R).
+  - rewrite qz_zupd_other by lia. exact (r_dirt _ _ _ R).
+Qed.
+
+(* (F) a selector is marked dead *)
+Lemma rel_dead ss cs m k d :
+  relSC ss cs m -> znth ss k = Some d ->
+  relSC (zupd ss k (mkSel (schan d) false)) cs
+        (mkM (m_sels m) (k :: m_dead m) (m_q m) (m_closed m)).
+Proof.
+  intros R H. constructor; cbn [m_sels m_dead m_q m_closed].
+  - rewrite (r_sels _ _ _ R). clear R. unfold zupd, znth in *.
+    destruct (Z.ltb_spec k 0) as [Lt|Ge]; [discriminate|]. revert H. generalize (Z.to_nat k). clear.
+    induction ss as [|y r IH]; intros [|n] H; simpl in *; try discriminate; auto.
+    + inv H. reflexivity.
+    + f_equal. apply IH. exact H.
+  - intro j. rewrite zmem_cons, orb_true_iff, (r_dead _ _ _ R j). destruct (Z.eq_dec k j) as [<-|N].
+    + rewrite (znth_zupd_same _ _ _ _ H). split.
+      * intros _. eexists. split; reflexivity.
+      * intros _. left. apply Z.eqb_refl.
+    + rewrite znth_zupd_other by exact N. split.
+      * intros [E|X]; [apply Z.eqb_eq in E; congruence | exact X].
+      * intro X. right. exact X.
+  - exact (r_len _ _ _ R).
+  - exact (r_q _ _ _ R).
+  - exact (r_closed _ _ _ R).
+  - intros j d' Hj Nj. destruct (Z.eq_dec k j) as [<-|N].
+    + rewrite (znth_zupd_same _ _ _ _ H) in Hj. inv Hj. simpl. exact (r_pos _ _ _ R k d H Nj).
+    + rewrite znth_zupd_other in Hj by exact N. exact (r_pos _ _ _ R j d' Hj Nj).
+  - exact (r_dirt _ _ _ R).
+Qed.
+
+Lemma rel_same s s' m : wf s' -> sels s' = sels s -> chans s' = chans s -> rel s m -> rel s' m.
+Proof. intros W S C [_ R]. split; [exact W|]. rewrite S, C. exact R. Qed.
+
+Lemma user_chan_valid s m c : relSC (sels s) (chans s) m -> user_chan m c = valid_user_chan s c.
+Proof. intro R. unfold user_chan, valid_user_chan, zlen. rewrite (r_len _ _ _ R). reflexivity. Qed.
+
+Lemma not_closed_mem ss cs m c ch :
+  relSC ss cs m -> znth cs c = Some ch -> cclosed ch = false -> zmem c (m_closed m) = false.
+Proof.
+  intros R H C. destruct (zmem c (m_closed m)) eqn:E; [|reflexivity].
+  apply (r_closed _ _ _ R) in E. destruct E as [_ (x & Hx & Cx)]. congruence.
+Qed.
+
+Lemma open_not_dead ss cs m k d :
+  relSC ss cs m -> znth ss k = Some d -> sopen d = true -> zmem k (m_dead m) = false.
+Proof.
+  intros R H O. destruct (zmem k (m_dead m)) eqn:E; [|reflexivity].
+  apply (r_dead _ _ _ R) in E. destruct E as (x & Hx & Ox). congruence.
+Qed.
+
+Lemma seq_z_in n : forall i k, In k (seq_z i n) <-> i <= k < i + Z.of_nat n.
+Proof.
+  induction n as [|n IH]; intros i k; simpl.
+  - lia.
+  - rewrite IH. lia.
+Qed.
+
+Lemma drained_sound s m :
+  rel s m -> existsb (chan_ready (try_make s)) (cases (try_make s)) = false -> drained m = true.
+Proof.
+  intros [W R] EX. unfold drained. apply forallb_forall. intros k I. apply seq_z_in in I.
+  rewrite (r_sels _ _ _ R), map_length in I.
+  destruct (znth_some (sels s) k) as [d Hd]; [unfold zlen; lia|].
+  rewrite (r_sels _ _ _ R), znth_map, Hd. simpl.
+  destruct (sopen d) eqn:O.
+  - assert (0 < schan d) as P by (apply (r_pos _ _ _ R k d Hd); lia).
+    destruct (try_make_facts s W) as (C & _ & _ & Cs & _).
+    assert (chan_ready (try_make s) (schan d) = false) as NR.
+    { destruct (chan_ready (try_make s) (schan d)) eqn:E; [|reflexivity].
+      assert (existsb (chan_ready (try_make s)) (cases (try_make s)) = true) as X; [|congruence].
+      apply existsb_exists. exists (schan d). split; [|exact E]. rewrite Cs.
+      apply in_map_iff. exists (k, schan d). split; [reflexivity|]. apply open_from_0. eauto. }
+    rewrite (chan_ready_chans s) in NR by exact C.
+    pose proof (wf_sel_chan _ W k d Hd) as V. destruct (znth_some (chans s) (schan d) V) as [ch Hc].
+    unfold chan_ready in NR. rewrite Hc in NR. apply orb_false_iff in NR. destruct NR as [N1 N2].
+    rewrite (r_q _ _ _ R _ P). unfold qz. rewrite Hc.
+    rewrite (not_closed_mem _ _ _ _ _ R Hc N2).
+    destruct (cq ch); [|discriminate]. apply orb_true_r.
+  - assert (zmem k (m_dead m) = true) as X by (apply (r_dead _ _ _ R); eauto). rewrite X. reflexivity.
+Qed.
+
+Lemma mon_step_sound s m o :
+  rel s m -> (forall a b, o <> OStress a b) -> snd (step s o) <> EBadChoice ->
+  exists m', mon_step m o (snd (step s o)) = Some m' /\ rel (fst (step s o)) m'.
+Proof.
+  intros RL NS NB. pose proof RL as [W R]. pose proof (wf_step s o W) as W'.
+  destruct o as [cap| |c|c v|c|k|seed cfg].
+  - (* ONewChan *)
+    simpl in *. destruct ((1 <=? cap) && (cap <=? max_cap)); simpl in *.
+    + eexists. split; [reflexivity|]. split; [exact W'|]. apply rel_new_chan. exact R.
+    + exists m. auto.
+  - (* ONewSche *)
+    simpl in *. eexists. split; [reflexivity|]. split; [exact W'|]. apply rel_new_chan. exact R.
+  - (* OAdd *)
+    simpl in *. rewrite (user_chan_valid s m c R). destruct (valid_user_chan s c) eqn:V; simpl in *.
+    + eexists. split; [reflexivity|]. split; [exact W'|].
+      apply valid_user_chan_spec in V.
+      pose proof (rel_add_sel _ _ _ c R ltac:(lia)) as R1.
+      unfold add_selector in *. destruct (wf_dirt_chan _ W) as [q E]. rewrite E in *. simpl in *.
+      destruct (zlen q <? dirt_cap); simpl in *; [|exact R1].
+      apply (rel_set_dirt _ _ _ (mkChan q false dirt_cap)); [exact R1 | exact E|].
+      simpl. intros x I. apply in_app_or in I. destruct I as [I|[<-|[]]]; [|reflexivity].
+      apply (r_dirt _ _ _ R). unfold qz. rewrite E. exact I.
+    + exists m. auto.
+  - (* OSend *)
+    simpl in *. rewrite (user_chan_valid s m c R). destruct (valid_user_chan s c) eqn:V; simpl in *;
+      [|exists m; auto].
+    apply valid_user_chan_spec in V.
+    destruct (znth (chans s) c) as [ch|] eqn:H; simpl in *; [|exists m; auto].
+    destruct (cclosed ch) eqn:C; simpl in *.
+    + assert (zmem c (m_closed m) = true) as X by (apply (r_closed _ _ _ R); split; [lia | eauto]).
+      rewrite X. exists m. auto.
+    + destruct (ccap ch <=? zlen (cq ch)); simpl in *; [exists m; auto|].
+      rewrite (not_closed_mem _ _ _ _ _ R H C). simpl.
+      eexists. split; [reflexivity|]. split; [exact W'|]. simpl.
+      rewrite (r_q _ _ _ R c ltac:(lia)). unfold qz. rewrite H.
+      apply (rel_set_q _ _ _ c ch (mkChan (cq ch ++ [v]) false (ccap ch))); auto; lia.
+  - (* OClose *)
+    simpl in *. rewrite (user_chan_valid s m c R). destruct (valid_user_chan s c) eqn:V; simpl in *;
+      [|exists m; auto].
+    apply valid_user_chan_spec in V.
+    destruct (znth (chans s) c) as [ch|] eqn:H; simpl in *; [|exists m; auto].
+    destruct (cclosed ch) eqn:C; simpl in *.
+    + assert (zmem c (m_closed m) = true) as X by (apply (r_closed _ _ _ R); split; [lia | eauto]).
+      rewrite X. exists m. auto.
+    + rewrite (not_closed_mem _ _ _ _ _ R H C). simpl.
+      eexists. split; [reflexivity|]. split; [exact W'|]. simpl.
+      apply rel_close; [exact R | exact H | lia].
+  - (* OHandle *)
+    change (step s (OHandle k)) with (handle s k) in *.
+    destruct (handle_cases s k W) as [EX| |s2 c v ok CO IK RC]; simpl in *.
+    + rewrite (drained_sound s m RL EX). exists m. auto.
+    + congruence.
+    + pose proof (try_make_sels s) as S1. pose proof (try_make_chans s) as C1.
+      destruct (in_runnings_open s k W IK) as (c2 & IO & CO2). rewrite CO in CO2. inv CO2.
+      apply open_from_0 in IO. destruct IO as (d & Hd & Od & Cd). subst c2.
+      apply recv_facts in RC. destruct RC as [(-> & ch & r & H & Q & ->)|(-> & -> & -> & K)].
+      * (* a value *)
+        rewrite C1 in H. destruct (Z.eqb_spec k 0) as [->|NK].
+        -- rewrite (wf_dirt_sel _ W) in Hd. inv Hd. simpl in *.
+           assert (v = 1) as -> by (apply (r_dirt _ _ _ R); unfold qz; rewrite H, Q; left; reflexivity).
+           simpl. exists m. split; [reflexivity|]. split; [exact W'|]. simpl. rewrite S1, C1.
+           apply (rel_set_dirt _ _ _ ch); [exact R | exact H|]. simpl. intros x I.
+           apply (r_dirt _ _ _ R). unfold qz. rewrite H, Q. right. exact I.
+        -- assert (0 < schan d) as P by exact (r_pos _ _ _ R k d Hd NK).
+           rewrite (r_sels _ _ _ R), znth_map, Hd. simpl.
+           rewrite (r_q _ _ _ R _ P). unfold qz at 1. rewrite H, Q.
+           rewrite !Z.eqb_refl, (open_not_dead _ _ _ _ _ R Hd Od). simpl.
+           eexists. split; [reflexivity|]. split; [exact W'|]. simpl. rewrite S1, C1.
+           apply (rel_set_q _ _ _ (schan d) ch (mkChan r (cclosed ch) (ccap ch))); auto.
+      * (* closed and drained *)
+        destruct K as (ch & H & Q & C). rewrite C1 in H.
+        assert (k <> 0) as NK.
+        { intros ->. rewrite (wf_dirt_sel _ W) in Hd. inv Hd. simpl in *.
+          destruct (wf_dirt_chan _ W) as [q E]. rewrite E in H. inv H. discriminate. }
+        assert (0 < schan d) as P by exact (r_pos _ _ _ R k d Hd NK).
+        rewrite (r_sels _ _ _ R), znth_map, Hd. simpl.
+        assert (zmem (schan d) (m_closed m) = true) as X by (apply (r_closed _ _ _ R); eauto).
+        rewrite (r_q _ _ _ R _ P). unfold qz. rewrite H, Q, X, Z.eqb_refl.
+        rewrite (open_not_dead _ _ _ _ _ R Hd Od).
+        destruct (Z.eqb_spec k 0) as [E0|_]; [contradiction|]. simpl.
+        eexists. split; [reflexivity|]. split; [exact W'|].
+        unfold mark_dead. rewrite S1, Hd. simpl. rewrite C1, <- (r_sels _ _ _ R). apply rel_dead; assumption.
+  - exfalso. eapply NS. reflexivity.
+Qed.
+
+Lemma znth_forallb2 s : forall cs rs,
+  map (chan_of s) rs = map Some cs ->
+  forallb2 (fun c k => match znth (map (fun d => (schan d, sopen d)) (sels s)) k with
+                       | Some (c', _) => Z.eqb c c' | None => false end) cs rs = true.
+Proof.
+  induction cs as [|c cr IH]; intros [|k rr] E; simpl in *; try discriminate; [reflexivity|].
+  injection E as E1 E2. rewrite (IH rr E2), andb_true_r.
+  rewrite znth_map. unfold chan_of in E1. destruct (znth (sels s) k) as [d|]; [|discriminate].
+  simpl in *. inv E1. apply Z.eqb_refl.
+Qed.
+
+Lemma snap_ok s m :
+  rel s m ->
+  snap_index_ok (snap_of s) = true /\ zlist_eqb (snap_sels (snap_of s)) (m_sels m) = true.
+Proof.
+  intros [W R]. split.
+  - simpl. apply znth_forallb2. exact (wf_index _ W).
+  - apply zlist_eqb_spec. simpl. rewrite map_map, (r_sels _ _ _ R). reflexivity.
+Qed.
+
+Lemma mon_from_sound ops : forall s m,
+  rel s m -> (forall a b, ~ In (OStress a b) ops) ->
+  ~ In EBadChoice (map snd (trace_from s ops)) ->
+  mon_from m ops (snd (run_from s ops)) = true.
+Proof.
+  induction ops as [|o r IH]; intros s m RL NS NB; simpl; [reflexivity|].
+  assert (forall a b, o <> OStress a b) as NS0.
+  { intros a b E. apply (NS a b). left. exact E. }
+  simpl in NB. destruct (step s o) as [s1 e] eqn:E. simpl in NB.
+  assert (e <> EBadChoice) as NB0 by (intro X; apply NB; left; exact X).
+  pose proof (mon_step_sound s m o RL NS0) as MS. rewrite E in MS. simpl in MS.
+  destruct (MS NB0) as (m1 & M1 & R1).
+  specialize (IH s1 m1 R1). destruct (run_from s1 r) as [s2 bs] eqn:RF.
+  cbn [snd mon_from] in *. rewrite M1. destruct (snap_ok s1 m1 R1) as [A B]. rewrite A, B.
+  cbn [andb]. apply IH.
+  - intros a b I. apply (NS a b). right. exact I.
+  - intro I. apply NB. right. exact I.
+Qed.
+
+Lemma rel_init : rel init m_init.
+Proof.
+  split; [exact wf_init|]. constructor; simpl.
+  - reflexivity.
+  - intro k. split; [discriminate|]. intros (d & H & O).
+    pose proof (znth_range _ _ _ H) as Rg. unfold zlen in Rg. simpl in Rg.
+    assert (k = 0) by lia. subst. inv H. discriminate.
+  - reflexivity.
+  - intros c P. unfold qget, qz. rewrite !znth_none; [reflexivity | unfold zlen; simpl; lia | unfold zlen; simpl; lia].
+  - intro c. split; [discriminate|]. intros [P (ch & H & _)].
+    pose proof (znth_range _ _ _ H) as Rg. unfold zlen in Rg. simpl in Rg. lia.
+  - intros k d H N. pose proof (znth_range _ _ _ H) as Rg. unfold zlen in Rg. simpl in Rg. lia.
+  - intros v [<-|[]]. reflexivity.
+Qed.
+
+Lemma monitor_sound ops :
+  (forall a b, ~ In (OStress a b) ops) -> ~ In EBadChoice (events ops) ->
+  monitor (ops, run ops) = true.
+Proof.
+  intros NS NB. unfold monitor, run. simpl. apply mon_from_sound; [exact rel_init | exact NS|].
+  rewrite events_is in NB. exact NB.
+Qed.
